@@ -13,6 +13,8 @@
     Lemmas/AstPath/Parent.lean      Nodes.parent / Nodes.siblings on the cache of full_pathfy
     Lemmas/AstPath/Ancestor.lean    Nodes.ancestor on the cache of full_pathfy (index-group stripping, tag search)
     Lemmas/AstPath/GroupBy.lean     EntryCache.group_by for any depth = the subtree enumeration cut at that depth
+    Lemmas/AstPath/PathAlgebra.lean the EntryPath algebra on encoded paths = list operations on elements
+    Lemmas/AstPath/Memo.lean        the query memo of Nodes: generated keys determine the query, memo transparency
     Lemmas/AstPath/Expand.lean      Nodes.values; Nodes.expand under PrefixSafe / RelativefySafe
 -/
 import Tranp.Lemmas.AstPath.Abstract
@@ -28,3 +30,5 @@ import Tranp.Lemmas.AstPath.Parent
 import Tranp.Lemmas.AstPath.Ancestor
 import Tranp.Lemmas.AstPath.GroupBy
 import Tranp.Lemmas.AstPath.Expand
+import Tranp.Lemmas.AstPath.Memo
+import Tranp.Lemmas.AstPath.PathAlgebra
